@@ -112,6 +112,45 @@ struct RecVisitor
         c.pointer() = sbepp::addressof(g) + sbepp::size_bytes(g);
         return done();
     }
+    // composite children
+    const char* name[CAP];
+    template<typename T, typename Tag>
+    bool on_type(T v, Tag)
+    {
+        kind[n] = 4;
+        id[n] = 0;
+        name[n] = sbepp::type_traits<Tag>::name();
+        value_of(v, 0);
+        return done();
+    }
+    template<typename T, typename Tag>
+    bool on_enum(T v, Tag)
+    {
+        kind[n] = 5;
+        id[n] = 0;
+        name[n] = sbepp::enum_traits<Tag>::name();
+        value_of(v, 0);
+        return done();
+    }
+    template<typename T, typename Tag>
+    bool on_set(T v, Tag)
+    {
+        kind[n] = 6;
+        id[n] = 0;
+        name[n] = sbepp::set_traits<Tag>::name();
+        value_of(v, 0);
+        return done();
+    }
+    template<typename T, typename Tag>
+    bool on_composite(T v, Tag)
+    {
+        kind[n] = 7;
+        id[n] = 0;
+        name[n] = sbepp::composite_traits<Tag>::name();
+        val[n] = 0;
+        ptr[n] = sbepp::addressof(v);
+        return done();
+    }
     template<typename T, typename Tag>
     bool on_data(T d, Tag)
     {
@@ -120,6 +159,39 @@ struct RecVisitor
         val[n] = 0;
         ptr[n] = sbepp::addressof(d);
         return done();
+    }
+};
+
+// set visiting: every choice once, in schema order, with its bit
+struct SetVisitor
+{
+    unsigned n;
+    unsigned char idx[64];
+    bool val[64];
+    template<typename Tag>
+    void on_set_choice(bool v, Tag)
+    {
+        idx[n] = sbepp::set_choice_traits<Tag>::index();
+        val[n] = v;
+        n++;
+    }
+};
+// enum visiting: the value's own tag or the unknown tag
+struct EnumVisitor
+{
+    bool known;
+    std::uint64_t tag_value;
+    template<typename E, typename Tag>
+    void on_enum_value(E, Tag)
+    {
+        known = true;
+        tag_value = bits(sbepp::to_underlying(sbepp::enum_value_traits<Tag>::value()));
+    }
+    template<typename E>
+    void on_enum_value(E, sbepp::unknown_enum_value_tag)
+    {
+        known = false;
+        tag_value = 0;
     }
 };
 
